@@ -91,11 +91,35 @@ def norm_data(data, layout):
 
 
 # ------------------------------------------------------------------ arrays
-def _matrix(data, layout, int_data):
+DATA_DTYPES = ["int16", "int32", "int64", "bool", "float32"]
+
+
+def fill_fits(data_dtype, fill):
+    """a float32 array cannot hold a number that is not a float32 number (the new samples would hold the fill value
+    rounded to the data's precision - a representation effect the property does not speak about): such combinations
+    are not generated.  Every other combination of data type and fill value is."""
+    if data_dtype != "float32" or fill is None:
+        return True
+    import numpy as np
+    v = cell_float(fill)
+    return v != v or abs(v) == math.inf or float(np.float32(v)) == v
+
+
+def _matrix(data, layout, int_data, data_dtype=None):
+    """the cells as a (samples x other positions) matrix of the requested data type; the cast must not change a
+    value (the model is told the cells): a cell the type cannot hold is a mistake of the generator"""
     import numpy as np
     k = ncols(layout)
     m = np.array([[cell_float(x) for x in row] for row in norm_data(data, layout)], dtype=float).reshape(len(data), k)
-    return m.astype("int64") if int_data else m
+    dt = data_dtype or ("int64" if int_data else None)
+    if dt is None:
+        return m
+    with np.errstate(invalid="ignore"):
+        t = m.astype(dt)
+    if not np.array_equal(t.astype(float), m, equal_nan=True):
+        _count("data-dtype-fallback:" + str(dt))      # the type cannot hold these cells: keep them as float64
+        return m
+    return t
 
 
 def _coord_variable(c, dim, step_attr, build):
@@ -127,12 +151,12 @@ def _assemble(m, var, c, dim, layout, noncontig=False):
 
 
 def make_array(coords, data, step_attr, layout="1d", int_axis=False, int_data=False, dim="time", build="time_dim",
-               f32_axis=False, noncontig=False):
+               f32_axis=False, noncontig=False, data_dtype=None):
     """a live DataArray with exactly these coordinates, data and `step` attribute, built along the path `build`"""
     import numpy as np
     import xarray as xr
     c = np.asarray(coords, dtype="int64" if int_axis else "float32" if f32_axis else float)
-    m = _matrix(data, layout, int_data)
+    m = _matrix(data, layout, int_data, data_dtype)
     n = len(coords)
     attrs = {} if step_attr is None else {"step": step_attr}
     if build == "isel_view" and n >= 1:
@@ -182,7 +206,8 @@ def make_array(coords, data, step_attr, layout="1d", int_axis=False, int_data=Fa
 def array_of(inp):
     return make_array(fl(inp["coords"]), inp["data"], f(inp.get("step_attr")), inp.get("layout", "1d"),
                       inp.get("int_axis", False), inp.get("int_data", False), inp.get("dim", "time"),
-                      inp.get("build", "time_dim"), inp.get("f32_axis", False), inp.get("noncontig", False))
+                      inp.get("build", "time_dim"), inp.get("f32_axis", False), inp.get("noncontig", False),
+                      inp.get("data_dtype"))
 
 
 _DIMS_OF = {"1d": lambda d: [d], "2d-first": lambda d: [d, "other"], "2d-last": lambda d: [d, "other"],
@@ -265,8 +290,8 @@ def _fill(inp, key="fill"):
         return int(v)
     if ty == "np":
         return np.float64(v)
-    if ty == "np32":
-        return np.float32(v)
+    if ty == "np32" and (v != v or abs(v) == math.inf or float(np.float32(v)) == v):
+        return np.float32(v)      # only where float32 holds the very number the model is told
     return v
 
 
@@ -350,7 +375,7 @@ def invoke(fname, fn, arr, inp):
     return fn(arr, *pos, **kw)
 
 
-HARNESS_KEYS = {"layout", "int_axis", "int_data", "argty", "dim", "build", "f32_axis", "noncontig", "call"}
+HARNESS_KEYS = {"layout", "int_axis", "int_data", "data_dtype", "argty", "dim", "build", "f32_axis", "noncontig", "call"}
 
 
 def to_model(fname, inp, drop=()):
